@@ -32,12 +32,15 @@ type full struct {
 	setCapacity                       func(c int64)
 	keys                              func() []string
 	items                             func() []string // "key:id"
+	rawAgain                          func() (keys, items []string) // re-reads the slices the last keys()/items() calls returned
 	stats                             func() (l, s, c, e int64)
 	length, size, capacity, evictions func() int64
 }
 
 func fromCache(c *cache.LRUCache) *full {
 	var raws [][]cache.Value
+	var lastK []interface{}
+	var lastI []cache.Item
 	toV := func(v cache.Value, ok bool) (*val, bool) {
 		if v == nil {
 			return nil, ok
@@ -74,17 +77,28 @@ func fromCache(c *cache.LRUCache) *full {
 		clear: c.Clear, setCapacity: c.SetCapacity,
 		keys: func() []string {
 			var o []string
-			for _, k := range c.Keys() {
+			lastK = c.Keys()
+			for _, k := range lastK {
 				o = append(o, k.(string))
 			}
 			return o
 		},
 		items: func() []string {
 			var o []string
-			for _, it := range c.Items() {
+			lastI = c.Items()
+			for _, it := range lastI {
 				o = append(o, fmt.Sprintf("%v:%d", it.Key, it.Value.(*val).id))
 			}
 			return o
+		},
+		rawAgain: func() (ks, is []string) {
+			for _, k := range lastK {
+				ks = append(ks, k.(string))
+			}
+			for _, it := range lastI {
+				is = append(is, fmt.Sprintf("%v:%d", it.Key, it.Value.(*val).id))
+			}
+			return
 		},
 		stats: c.Stats, length: c.Length, size: c.Size, capacity: c.Capacity, evictions: c.Evictions,
 	}
@@ -92,6 +106,8 @@ func fromCache(c *cache.LRUCache) *full {
 
 func fromTiny(c *tiny.LRUCache) *full {
 	var raws [][]interface{}
+	var lastK []interface{}
+	var lastI []tiny.Item
 	toV := func(v interface{}, ok bool) (*val, bool) {
 		if v == nil {
 			return nil, ok
@@ -128,17 +144,28 @@ func fromTiny(c *tiny.LRUCache) *full {
 		clear: c.Clear, setCapacity: c.SetCapacity,
 		keys: func() []string {
 			var o []string
-			for _, k := range c.Keys() {
+			lastK = c.Keys()
+			for _, k := range lastK {
 				o = append(o, k.(string))
 			}
 			return o
 		},
 		items: func() []string {
 			var o []string
-			for _, it := range c.Items() {
+			lastI = c.Items()
+			for _, it := range lastI {
 				o = append(o, fmt.Sprintf("%v:%d", it.Key, it.Value.(*val).id))
 			}
 			return o
+		},
+		rawAgain: func() (ks, is []string) {
+			for _, k := range lastK {
+				ks = append(ks, k.(string))
+			}
+			for _, it := range lastI {
+				is = append(is, fmt.Sprintf("%v:%d", it.Key, it.Value.(*val).id))
+			}
+			return
 		},
 		stats: c.Stats, length: c.Length, size: c.Size, capacity: c.Capacity, evictions: c.Evictions,
 	}
@@ -233,6 +260,8 @@ type st struct {
 	m       *mlru
 	next    int
 	removed []string // ids of every list SetAndGetRemoved returned, as they read at return time
+	prevKeys, prevItems []string // what Keys()/Items() returned after the previous step …
+	rawKeys             func() []string // … and a re-reader of those very slices
 }
 
 func (s *st) newVal(size int) *val { s.next++; return &val{s.next, size} }
@@ -274,6 +303,13 @@ func after(s *st) string {
 			}
 		}
 	}
+	if s.prevKeys != nil || s.prevItems != nil {
+		ks, is := c.rawAgain()
+		if strings.Join(ks, ",") != strings.Join(s.prevKeys, ",") || strings.Join(is, ",") != strings.Join(s.prevItems, ",") {
+			return fmt.Sprintf("the slices Keys()/Items() returned before this operation read [%s]/[%s] then and [%s]/[%s] now (they alias storage the cache keeps using)", strings.Join(s.prevKeys, ","), strings.Join(s.prevItems, ","), strings.Join(ks, ","), strings.Join(is, ","))
+		}
+	}
+	defer func() { s.prevKeys, s.prevItems = c.rawAgain() }()
 	if g, w := strings.Join(c.keys(), ","), strings.Join(m.keys(), ","); g != w {
 		return fmt.Sprintf("Keys() (most to least recent) = [%s], ideal LRU holds [%s]", g, w)
 	}
